@@ -163,6 +163,9 @@ func (cc *clientCxn) run() {
 
 func (cc *clientCxn) onTerminate() {
 	cc.cxn.Close()
+	// a command of this client may still be blocked (BLPOP ...): end it, so that a closed
+	// or killed client stops competing for list elements
+	cc.cs.unblock("", false)
 	cc.cs.unregister()
 }
 
